@@ -29,6 +29,7 @@ CLAIM = dict(
          "deterministic simulator (= BFS generations of the percolated digraph), in both return modes; total mass 1 (both modes); final size = out-component of I0 in the percolated digraph; "
          "percolation_based_discrete_SIR (one coin per undirected edge) and basic_discrete_SIR agree in law on every event of the rows and node histories (both modes); basic_discrete_SIS = one coin per (step, arc). "
          "Chain form (C12_chain_law, C12_sis_chain_law): the law of the sequence of generation sets of a whole run is that of the Reed-Frost / discrete-SIS Markov chain (product of the one-step factors) stopped by the loop condition. "
+         "Deterministic skeleton of basic_discrete_SIS (coq/Props/C12sis.v): under a step-indexed table the run is the generation sequence J_{k+1} = {v not in J_k with a successful contact from J_k at step k}, rows, histories, fuel. "
          "Order independence (coq/Props/C12ord.v): with or without a recovery test and for basic_discrete_SIS, any two iteration orders of the Python sets give the same rows, the same node histories and the same transmissions up to the order of the entries of one step. "
          "Tie: extracted model vs /repo on the same contact tables, exhaustively over all Bernoulli outcomes on small graphs, plus draw-by-draw replay of the p-based functions.",
     design='DESIGN.md section 4, C12',
